@@ -22,14 +22,20 @@ def seedcheck(path):
             ok[cur] = l.strip()  # a rerun overrides
     return ok
 
-def matrix(path):
-    fired, cur, last = {}, None, None
+R1_MISSED_AT_FIRST = {'C01/a', 'C01/b', 'C02/a', 'C02/b', 'C03/a', 'C03/b', 'C09/a', 'C10/a', 'C12/a', 'C12/b', 'C16/b'}
+
+def matrix(path, keep_first=False):
+    """keep_first: a log that was appended to over time - the first run against a change is the one that counts"""
+    fired, cur, last, seen = {}, None, None, set()
     for l in open(path, errors='replace'):
         m = re.match(r'######## (\S*)/(C\d+)/(\w)/patch.diff', l)
         if m:
             cur = (m.group(2), m.group(3)) if os.path.basename(m.group(1)) == rootname else None
+            if cur and keep_first and cur in seen:
+                cur = None
             if cur:
-                fired.setdefault(cur, {})
+                seen.add(cur)
+                fired[cur] = {}
             continue
         m = re.match(r'== (C\d+) rc=(\d+)', l)
         if m and cur:
@@ -55,7 +61,7 @@ def needs(readme):
     return ' '.join(m.group(1).split())[:900]
 
 ok = seedcheck(sclog)
-first, final = matrix(mlog_first), matrix(mlog_final)
+first, final = matrix(mlog_first, keep_first=True), matrix(mlog_final)
 for (pid, v), res in sorted(ok.items()):
     src = os.path.join(root, pid, v)
     if not os.path.isdir(src):
@@ -87,5 +93,9 @@ for (pid, v), res in sorted(ok.items()):
         'detected_by': sorted(k for k, x in d2.items() if x['rc'] == 1),
         'missed_at_first_by_own_property_check': bool(d1) and d1.get(pid, {}).get('rc') != 1,
     }
+    if rnd == '1':
+        # the log of the very first runs against round 1 was not kept; DESIGN.md 9.5 lists what was missed
+        meta['missed_at_first_by_own_property_check'] = '%s/%s' % (pid, v) in R1_MISSED_AT_FIRST
+        meta['checks_run']['when_the_change_arrived'] = 'not kept (re-run after strengthening: %s)' % render(d1)
     json.dump(meta, open(os.path.join(dst, 'meta.json'), 'w'), indent=1)
     print(pid, name, 'first:', sorted(k for k, x in d1.items() if x['rc'] == 1), 'final:', meta['detected_by'])
